@@ -363,10 +363,20 @@ theorem handleNestedExpression_wf (h : InvH b rs jlo ctx) {ni : Nat} (hni : ni <
     (pn : ParseNode) : Sat (InvH b rs jlo) (handleNestedExpression ctx crj ni pn) := by
   obtain ⟨hd, hj, hn, hr, hjl⟩ := h
   unfold handleNestedExpression
-  simp only [pushInstr, pushToJumpTable, addConst, getJumpTableLen]
   split
-  · wf_final ctx.data.jumps.size
-  · have hn' := nodesWF_mono (jb' := ctx.data.jumps.size + 1) (by omega) hn
+  · -- commit df89d39: the constant names the containing expression of the build node (a valid jump entry by `NodesWF`)
+    have key : ∀ cj : Nat, cj < ctx.data.jumps.size → Sat (InvH b rs jlo) (Outcome.ok ({ ctx with
+        data := pushInstr (addConst ctx.data (Val.expr cj)).1 Instruction.put (some (addConst ctx.data (Val.expr cj)).2)
+          (some ni) } : Ctx F)) := by
+      intro cj hc
+      simp only [pushInstr, pushToJumpTable, addConst, getJumpTableLen]
+      wf_final ctx.data.jumps.size
+    refine key _ ?_
+    split
+    · rename_i node hnode; exact (hn.2 ni node hnode).2.1
+    · exact hcrj
+  · simp only [pushInstr, pushToJumpTable, addConst, getJumpTableLen]
+    have hn' := nodesWF_mono (jb' := ctx.data.jumps.size + 1) (by omega) hn
     refine sat_bind (setNodeIdx_wf hn' _ (fun hlt => bnWF_newWithJump _ hlt (by omega)) _) (fun nodes hnodes => ?_)
     have hnodes' : NodesWF (ctx.data.jumps.push 0).size b.n nodes := by simpa using hnodes
     wf_final ctx.data.jumps.size
